@@ -319,13 +319,13 @@ twin("c10-twin-umn-generated-local", "C10", (UMN, "        if super().prepare():
 fault("c11-d5-unfixed", "C11", "R11a", (DIR, "            try:\n                with self.vfs.open(self.cachename, \"rb\") as fp:\n                    self.fileentries = pickle.load(fp)\n            except Exception:\n                # Truncated or corrupt cache file: regenerate the listing.\n                return False\n", "            with self.vfs.open(self.cachename, \"rb\") as fp:\n                self.fileentries = pickle.load(fp)\n"))
 fault("c11-narrow-handler", "C11", "R11a", (DIR, "            except Exception:\n                # Truncated or corrupt cache file: regenerate the listing.\n                return False\n", "            except EOFError:\n                return False\n"))
 fault("c11-handler-still-hit", "C11", "R11a", (DIR, "            except Exception:\n                # Truncated or corrupt cache file: regenerate the listing.\n                return False\n", "            except Exception:\n                self.fileentries = []\n"))
-fault("c11-zip-narrow", "C11", "R11a", (ZIP, "                self.dircache = dict(db)\n        except Exception:", "                self.dircache = dict(db)\n        except KeyError:"))
-fault("c11-zip-no-rebuild", "C11", "R11a", (ZIP, "                self.dircache = dict(db)\n        except Exception:\n            self.populate_cache()\n            self.save_cache()", "                self.dircache = dict(db)\n        except Exception:\n            pass"))
-ZIP_LAZY = ("            with shelve.open(cache_fspath, \"r\") as db:\n                self.dircache = dict(db)\n", "            self.dircache = shelve.open(cache_fspath, \"r\")\n")
+fault("c11-zip-narrow", "C11", "R11a", (ZIP, "            self.dircache = dircache\n        except Exception:", "            self.dircache = dircache\n        except KeyError:"))
+fault("c11-zip-no-rebuild", "C11", "R11a", (ZIP, "            self.dircache = dircache\n        except Exception:\n            self.populate_cache()\n            self.save_cache()", "            self.dircache = dircache\n        except Exception:\n            pass"))
+ZIP_LAZY = ("            with shelve.open(cache_fspath, \"r\") as db:\n                dircache = dict(db)\n", "            dircache = self.dircache = shelve.open(cache_fspath, \"r\")\n")
 fault("c11-zip-lazy-store-kept", "C11", "R11b", (ZIP,) + ZIP_LAZY)
-fault("c11-zip-store-read-outside", "C11", "R11b", (ZIP, "            with shelve.open(cache_fspath, \"r\") as db:\n                self.dircache = dict(db)\n        except Exception:\n            self.populate_cache()\n            self.save_cache()\n",
-      "            db = shelve.open(cache_fspath, \"r\")\n        except Exception:\n            self.populate_cache()\n            self.save_cache()\n            return\n        self.dircache = dict(db)\n"))
-twin("c11-twin-zip-items", "C11", (ZIP, "                self.dircache = dict(db)\n", "                self.dircache = dict(db.items())\n"))
+fault("c11-zip-store-read-outside", "C11", "R11b", (ZIP, "            with shelve.open(cache_fspath, \"r\") as db:\n                dircache = dict(db)\n            if",
+      "            db = shelve.open(cache_fspath, \"r\")\n            dircache = {}\n            if"), (ZIP, "            self.dircache = dircache\n        except Exception:\n            self.populate_cache()\n            self.save_cache()\n", "            self.dircache = dircache\n        except Exception:\n            self.populate_cache()\n            self.save_cache()\n            return\n        self.dircache = dict(db)\n"))
+twin("c11-twin-zip-items", "C11", (ZIP, "                dircache = dict(db)\n", "                dircache = dict(db.items())\n"))
 twin("c11-twin-log", "C11", (DIR, "            except Exception:\n                # Truncated or corrupt cache file: regenerate the listing.\n                return False\n", "            except Exception as e:\n                self.cacheerror = str(e)\n                return False\n"))
 twin("c11-twin-tuple", "C11", (DIR, "            except Exception:\n                # Truncated", "            except (Exception, OSError):\n                # Truncated"))
 
@@ -734,3 +734,9 @@ twin("c20-twin-zip-write-badzip-only", "C20", (ZIP, "    def write(self, wfile):
 fault("c15-entry-depends-on-protocol", "C15", "R15g", (FILE, "    def getentry(self):\n", "    def getentry(self):\n        self.wantsea = getattr(self.protocol, \"wantsattributes\", True)\n"))
 fault("c06-entry-depends-on-protocol", "C06", "R06i", (FILE, "    def getentry(self):\n", "    def getentry(self):\n        self.wantsea = getattr(self.protocol, \"wantsattributes\", True)\n"))
 fault("c05-title-no-collapse", "C05", "R05h", (HTML, '            title = re.sub(r"[\\s]+", " ", parser.titlestr)\n', "            title = parser.titlestr\n"))
+fault("c11-zip-no-completeness-check", "C11", "R11c", (ZIP, "            if dircache.pop(self.CACHE_COMPLETE_KEY, None) != len(dircache):\n                raise ValueError(\"incomplete cache\")\n", "            dircache.pop(self.CACHE_COMPLETE_KEY, None)\n"))
+fault("c11-zip-count-written-first", "C11", "R11c", (ZIP, "                for (key, value) in self.dircache.items():\n                    db[key] = value\n                # Written last: a store that lost entries has lost this one\n                # as well, or no longer matches it.\n                db[self.CACHE_COMPLETE_KEY] = len(self.dircache)\n",
+      "                db[self.CACHE_COMPLETE_KEY] = len(self.dircache)\n                for (key, value) in self.dircache.items():\n                    db[key] = value\n"))
+fault("c11-zip-count-check-outside-guard", "C11", "R11c", (ZIP, "            with shelve.open(cache_fspath, \"r\") as db:\n                dircache = dict(db)\n            if dircache.pop(self.CACHE_COMPLETE_KEY, None) != len(dircache):\n                raise ValueError(\"incomplete cache\")\n            self.dircache = dircache\n        except Exception:\n            self.populate_cache()\n            self.save_cache()\n",
+      "            with shelve.open(cache_fspath, \"r\") as db:\n                dircache = dict(db)\n        except Exception:\n            self.populate_cache()\n            self.save_cache()\n            return\n        if dircache.pop(self.CACHE_COMPLETE_KEY, None) != len(dircache):\n            raise ValueError(\"incomplete cache\")\n        self.dircache = dircache\n"))
+twin("c11-twin-zip-count-get", "C11", (ZIP, "            if dircache.pop(self.CACHE_COMPLETE_KEY, None) != len(dircache):\n", "            if dircache.pop(self.CACHE_COMPLETE_KEY, -1) != len(dircache):\n"))
